@@ -287,7 +287,7 @@ fn run_d<const D: usize>(cfg: &Cfg, rng: &mut Rng, out: &mut Out) {
                 out.case(&format!("x{D}_{si}_{op}_nat"), "txn", &format!("D={D} op={op} fp=none ord=0 fired=0"));
                 out.obs("outcome", &outcome);
                 out.obs("unchanged", if before == after { "1" } else { "0" });
-                if D <= 4 && (thorough || n % 3 == 0) && before == after && (outcome.starts_with("err") || outcome.starts_with("skipped")) {
+                if D <= 4 && n % (if thorough { 2 } else { 3 }) == 0 && before == after && (outcome.starts_with("err") || outcome.starts_with("skipped")) {
                     let fseed = 0xF0110 + n as u64;
                     out.obs("followup_same", if followup(&mut dt, fseed) == followup(&mut pre, fseed) { "1" } else { "0" });
                 }
@@ -316,7 +316,7 @@ fn run_d<const D: usize>(cfg: &Cfg, rng: &mut Rng, out: &mut Out) {
                     out.case(&format!("x{D}_{si}_{op}_{}_{ord}", fp.replace('.', "-")), "txn", &format!("D={D} op={op} fp={fp} ord={ord} fired={}", fired as u8));
                     out.obs("outcome", &outcome);
                     out.obs("unchanged", if before == after { "1" } else { "0" });
-                    if D <= 4 && (thorough || n % 3 == 0) && before == after && (outcome.starts_with("err") || outcome.starts_with("skipped")) {
+                    if D <= 4 && n % (if thorough { 2 } else { 3 }) == 0 && before == after && (outcome.starts_with("err") || outcome.starts_with("skipped")) {
                         let fseed = 0xF0220 + n as u64;
                         let (fa, fb) = (followup(&mut dt, fseed), followup(&mut pre, fseed));
                         if fa != fb && std::env::var_os("VH_DEBUG").is_some() { eprintln!("FOLLOWUP x{D}_{si}_{op}_{fp}_{ord}\n A={}\n B={}", &fa[..fa.len().min(300)], &fb[..fb.len().min(300)]); }
